@@ -1,4 +1,135 @@
-/- driver stub (View): replaced by the owner of this model group -/
+/- driver for C17 (linked views).
+
+   view <PA|PI|PS<hex spec>> J<n> (<id> <state point value>)*n T<m> (D <hexpath> | L <hexpath> <hex target>)*m
+     -> <outcome> <entry>*      entries sorted; D:<hexpath>  |  L:<hexpath>:<hex target>   (target = job id the link resolves to)
+        outcome: done | reject:RuntimeError | reject:_SchemaPathEvaluationError | fail:<errno name> | unmodelled
+   links <PA|…> J<n> …           -> the link set only:  <hexpath>=<id> … | reject:… | unmodelled
+   plan  <PA|…> J<n> … T<m> …    -> sorted obsolete / stale / update / new sets of the analysis
+-/
+import Signac.LinkedView
 import Signac.Wire
-open Signac
-def main : IO Unit := driverLoop (fun _ => "bad-op")
+open Signac Signac.LV
+
+def parseSpec (t : String) : Option PathSpec :=
+  match t.toList with
+  | ['P', 'A'] => some .auto
+  | ['P', 'I'] => some .byId
+  | 'P' :: 'S' :: hx => (unhex (String.ofList hx)).map .fmt
+  | _ => none
+
+def parseCount (c : Char) (t : String) : Option Nat :=
+  match t.toList with
+  | c' :: rest => if c' = c then (String.ofList rest).toNat? else none
+  | [] => none
+
+def isIdTok (t : String) : Bool := !t.isEmpty && t.toList.all (fun c => c.isAlphanum)
+
+def parseJobs : Nat → List String → Option (List Job × List String)
+  | 0, ts => some ([], ts)
+  | n + 1, id :: ts =>
+    if !isIdTok id then none else
+    match parseValue ts with
+    | some (.obj kvs, rest) =>
+      (parseJobs n rest).map (fun (js, r) => ({ id := id, sp := kvs } :: js, r))
+    | _ => none
+  | _ + 1, [] => none
+
+def parsePath (hx : String) : Option Path :=
+  (unhex hx).bind (fun s => if s.isEmpty then none else some (splitSep s))
+
+def parseTree : Nat → List String → Option (View × List String)
+  | 0, ts => some ([], ts)
+  | n + 1, "D" :: p :: ts => do
+    let p ← parsePath p
+    let (v, r) ← parseTree n ts
+    pure ((p, Entry.dir) :: v, r)
+  | n + 1, "L" :: p :: t :: ts => do
+    let p ← parsePath p
+    let t ← unhex t
+    let (v, r) ← parseTree n ts
+    pure ((p, Entry.link t) :: v, r)
+  | _ + 1, _ => none
+
+def insertStr (s : String) : List String → List String
+  | [] => [s]
+  | x :: xs => if s < x then s :: x :: xs else x :: insertStr s xs
+
+def sortStrs : List String → List String
+  | [] => []
+  | x :: xs => insertStr x (sortStrs xs)
+
+def pathHex (p : Path) : String := toHex (joinWith "/" p)
+
+def showView (v : View) : List String :=
+  sortStrs (v.map (fun (p, e) =>
+    match e with
+    | .dir => "D:" ++ pathHex p
+    | .link t => "L:" ++ pathHex p ++ ":" ++ toHex t))
+
+def showReject : Reject → String
+  | .runtime => "reject:RuntimeError"
+  | .schemaEval => "reject:_SchemaPathEvaluationError"
+
+def showErr : FsErr → String
+  | .noEnt => "fail:ENOENT"
+  | .notEmpty => "fail:ENOTEMPTY"
+  | .exist => "fail:EEXIST"
+  | .notDir => "fail:ENOTDIR"
+
+def showOutcome : Outcome → String
+  | .done => "done"
+  | .rejected e => showReject e
+  | .failed e => showErr e
+  | .unmodelled => "unmodelled"
+
+def parseJobsPart (ts : List String) : Option (PathSpec × List Job × List String) :=
+  match ts with
+  | sp :: jn :: rest => do
+    let spec ← parseSpec sp
+    let n ← parseCount 'J' jn
+    let (jobs, r) ← parseJobs n rest
+    pure (spec, jobs, r)
+  | _ => none
+
+def parseTreePart (ts : List String) : Option View :=
+  match ts with
+  | tn :: rest => do
+    let m ← parseCount 'T' tn
+    let (v, r) ← parseTree m rest
+    if r.isEmpty then pure v else none
+  | [] => none
+
+def stepView (line : String) : String :=
+  match tokens line with
+  | "view" :: ts =>
+    (match parseJobsPart ts with
+     | some (spec, jobs, rest) =>
+       (match parseTreePart rest with
+        | some v =>
+          let (v', out) := createView v jobs spec
+          " ".intercalate (showOutcome out :: showView v')
+        | none => "bad-value")
+     | none => "bad-value")
+  | "links" :: ts =>
+    (match parseJobsPart ts with
+     | some (spec, jobs, []) =>
+       (match createLinks jobs spec with
+        | .ok links => " ".intercalate ("ok" :: sortStrs (links.map (fun (p, t) => pathHex p ++ "=" ++ t)))
+        | .reject e => showReject e
+        | .unmodelled => "unmodelled")
+     | _ => "bad-value")
+  | "plan" :: ts =>
+    (match parseJobsPart ts with
+     | some (spec, jobs, rest) =>
+       (match parseTreePart rest, createLinks jobs spec with
+        | some v, .ok links =>
+          let pl := analyzeView v links
+          let sh (tag : String) (ps : List Path) := tag ++ "[" ++ ",".intercalate (sortStrs (ps.map pathHex)) ++ "]"
+          " ".intercalate [sh "obsolete" pl.obsolete, sh "stale" pl.stale, sh "update" pl.toUpdate, sh "new" pl.fresh]
+        | some _, .reject e => showReject e
+        | some _, .unmodelled => "unmodelled"
+        | none, _ => "bad-value")
+     | none => "bad-value")
+  | _ => "bad-op"
+
+def main : IO Unit := driverLoop stepView
